@@ -129,6 +129,10 @@ class Bounds:
             return self.ub_param(b, t[1], depth + 1)
         if k == 'phi':
             kk = (t[1], t[2])
+            # the spawn counter: handed to do_spawn() as the number of spawned workers, incremented by one per guarded
+            # spawn (C08-SPAWN / C08-GUARD): it stays below max_num_threads
+            if self.is_spawn_counter(t, b, r):
+                return A2_THREADS
             init = self.ub(r.init.get(kk), b, r, depth + 1)
             if init is None:
                 return None
@@ -147,6 +151,40 @@ class Bounds:
         if k == 'mut':
             return None
         return None
+
+    def is_spawn_counter(self, t, b, r):
+        def phis_of(x, seen):
+            outp = set()
+            st = [x]
+            while st:
+                y = st.pop()
+                if y is None or y in seen:
+                    continue
+                seen.add(y)
+                if y[0] == 'phi':
+                    outp.add(y)
+                    st.append(r.init.get((y[1], y[2])))
+                    st.extend(r.recur.get((y[1], y[2]), ()))
+                elif y[0] == 'set':
+                    st.extend(y[1])
+                elif y[0] == 'bin' and y[1] == 'Add' and y[3] == ('const', 1):
+                    st.append(y[2])
+            return outp
+        fam = phis_of(t, set())
+        for bb, c in r.calls.items():
+            if sg(c['callee']).endswith('::do_spawn') and len(c['args']) > 1 and c['args'][1] in fam:
+                # every member only ever changes by +1 from 0
+                for p in fam:
+                    iv = r.init.get((p[1], p[2]))
+                    for alt in alternatives(iv):
+                        if not (alt == ('const', 0) or alt in fam):
+                            return False
+                    for rec in r.recur.get((p[1], p[2]), ()):
+                        for alt in alternatives(rec):
+                            if not (alt in fam or (alt[0] == 'bin' and alt[1] == 'Add' and alt[2] in fam and alt[3] == ('const', 1))):
+                                return False
+                return True
+        return False
 
     def subst(self, t, old, new):
         if t == old:
@@ -261,8 +299,8 @@ class Bounds:
                     return all(x[0] == 'variant' and self.lb1(x[3][0], b, r, pc, depth + 1) for x in a[1])
                 if a == P('self'):
                     return False
-            if c.endswith('utils::div_ceil') and len(t[2]) == 2:
-                # lemma: a >= 1 and b >= 1  ==>  a/b + [a - (a/b)*b > 0] >= 1
+            if t[1] in self.F.bodies and len(t[2]) == 2 and self.is_ceil_div(t[1]):
+                # lemma: a >= 1 and b >= 1  ==>  a/b + [a mod b > 0] >= 1
                 return self.lb1(t[2][0], b, r, pc, depth + 1) and self.lb1(t[2][1], b, r, pc, depth + 1)
             if t[1] in self.F.bodies:
                 return self.lb1_fn(t[1], t[2], b, r, pc, depth + 1)
@@ -278,13 +316,60 @@ class Bounds:
                     # lemma: x != 1 and x >= 1  ==>  x >> 1 >= 1
                     if alt == ('bin', 'Shr', t, ('const', 1)):
                         if any(pt == ('bin', 'Eq', t, ('const', 1)) and lin.fact_truth(f) is False for pt, f in rpc) or \
-                                any(pt == t and f[0] == 'ne' and 1 in f[1] for pt, f in rpc):
+                                any(pt == t and f[0] == 'ne' and 1 in f[1] for pt, f in rpc) or \
+                                any(lin.fact_truth(f) is False and self.pred_true_at_one(pt, t) for pt, f in rpc):
                             continue
                         return False
                     if not self.lb1(alt, b, r, rpc, depth + 1):
                         return False
             return True
         return False
+
+    def is_ceil_div(self, name):
+        """is the crate fn `name(n, d)` a ceiling division: it returns n/d + 1 whenever the remainder is positive and
+        n/d only when the remainder is zero (decided by case analysis on the remainder test, as seeds)"""
+        key = ('ceil', name)
+        if key in self._lb_fn:
+            return self._lb_fn[key]
+        fb = self.F.bodies[name]
+        ok = False
+        if len(fb.arg_locals()) == 2:
+            N, D = (P(fb.local_name(l) or '_%d' % l) for l in fb.arg_locals())
+            q = ('bin', 'Div', N, D)
+            rems = (('bin', 'Rem', N, D), ('bin', 'Sub', N, ('bin', 'Mul', q, D)))
+            r0 = self.ctx.run0(name)
+            tests = [d for (d, tg) in r0.switches.values() if d[0] == 'bin' and d[1] in ('Gt', 'Ne', 'Eq', 'Lt', 'Ge', 'Le') and
+                     ((d[2] in rems and d[3] == ('const', 0)) or (d[3] in rems and d[2] == ('const', 0)))]
+            if len(tests) == 1:
+                tst = tests[0]
+                res_ = {}
+                for positive in (True, False):
+                    truth = positive if tst[1] in ('Gt', 'Ne') else (not positive)
+                    if tst[1] in ('Lt',):       # 0 < rem
+                        truth = positive
+                    rr = self.ctx.opa0.run(name, seeds={'atoms': (lambda d, tst=tst, truth=truth: truth if d == tst else None), 'key': ('ceil', name, positive)})
+                    res_[positive] = rr.ret
+                plus1 = (('bin', 'Add', q, ('const', 1)), ('bin', 'Add', ('const', 1), q))
+                exact = (q, ('bin', 'Add', q, ('const', 0)))
+                ok = res_[True] in plus1 and res_[False] in exact
+        self._lb_fn[key] = ok
+        return ok
+
+    def pred_true_at_one(self, call_term, x):
+        """`call_term` is a call of a crate predicate with x among its arguments: does the predicate return true whenever
+        that argument is 1?  (then `predicate false` implies x != 1)"""
+        if call_term[0] != 'call' or call_term[1] not in self.F.bodies:
+            return False
+        idx = [i for i, a in enumerate(call_term[2]) if a == x]
+        if len(idx) != 1:
+            return False
+        fb = self.F.bodies[call_term[1]]
+        args = [('const', 1) if i == idx[0] else P(fb.local_name(l) or '_%d' % l) for i, l in enumerate(fb.arg_locals())]
+        key = ('pred1', call_term[1], idx[0])
+        if key not in self._lb_fn:
+            rr = self.ctx.opa0.run(call_term[1], args)
+            self._lb_fn[key] = rr.ret == ('const', 1)
+        return self._lb_fn[key]
 
     def lb1_fn(self, name, args, cb, cr, cpc, depth):
         """does the crate fn return >= 1 for the given argument terms (evaluated at the call site)"""
@@ -450,7 +535,7 @@ def discharge_assert(ctx, b, r, bb, a):
     operands = _operands(ctx, b, r, bb, msg)
     if not depends_on_config(ctx, b, r, [x for x in operands if x is not None] + [a['cond']]):
         return 'independent', 'operands are constants'
-    if kind == 'DivisionByZero':
+    if kind in ('DivisionByZero', 'RemainderByZero'):
         # cond = Eq(divisor, 0) expected false
         cond = a['cond']
         div = cond[2] if cond[0] == 'bin' and cond[1] == 'Eq' else None
@@ -583,10 +668,10 @@ def c15_oblig(ctx):
     out.count('obligations', n)
     out.count('discharged', dis)
     if ctx.facts.opts.get('overflow_checks'):
-        out.floor('panic_sites', n, 25 if not ctx.fixture else 0)
+        out.floor('panic_sites', n, 12 if not ctx.fixture else 0)
     else:
-        out.floor('panic_sites', n, 8 if not ctx.fixture else 0)
-    out.floor('slice_bodies', n_bodies, 40 if not ctx.fixture else 0)
+        out.floor('panic_sites', n, 4 if not ctx.fixture else 0)
+    out.floor('slice_bodies', n_bodies, 25 if not ctx.fixture else 0)
     return out
 
 
